@@ -584,21 +584,28 @@ func PreprocessDeclarationsPrelude(baseURL string, declarations []pa.Compound, p
 			if prelude == nil {
 				continue
 			}
-			hasNesting := false
-			// Replace & selector by parent.
+			// Each selector of the nested list is relative to the parent on its own.
 			var declarationPrelude []Token
-			for _, token := range declaration.Prelude {
-				if pa.IsLiteral(token, "&") {
-					hasNesting = true
-					declarationPrelude = append(declarationPrelude, colon, is)
-				} else {
-					declarationPrelude = append(declarationPrelude, token)
+			for i, part := range pa.SplitOnComma(declaration.Prelude) {
+				if i != 0 {
+					declarationPrelude = append(declarationPrelude, pa.NewLiteral(",", pos11))
 				}
-			}
-			if !hasNesting {
-				// No & selector, prepend parent.
-				declarationPrelude = append([]Token{colon, is, pa.NewWhitespace(" ", pos11)},
-					declaration.Prelude...)
+				hasNesting := false
+				// Replace & selector by parent.
+				var partPrelude []Token
+				for _, token := range part {
+					if pa.IsLiteral(token, "&") {
+						hasNesting = true
+						partPrelude = append(partPrelude, colon, is)
+					} else {
+						partPrelude = append(partPrelude, token)
+					}
+				}
+				if !hasNesting {
+					// No & selector, prepend parent.
+					partPrelude = append([]Token{colon, is, pa.NewWhitespace(" ", pos11)}, partPrelude...)
+				}
+				declarationPrelude = append(declarationPrelude, partPrelude...)
 			}
 			contents, err := PreprocessDeclarationsPrelude(baseURL, pa.ParseBlocksContents(declaration.Content, false),
 				declarationPrelude)
